@@ -14,7 +14,8 @@
 //
 // Scoping (DESIGN.md section 5): filter lists are compared as multisets (OR-ed, order is not documented);
 // a scalar option given several times with different values may yield any of the given values (the help
-// text does not say which occurrence wins; which one won is recorded as an evidence counter);
+// text does not say which occurrence wins; which one won is recorded as an evidence counter); for -o the runner must
+// then apply the kind the getters settled on (every sequence of 1..3 -o options is enumerated in its own section);
 // unknown options / out-of-domain values are not *required* to be rejected (the property does not say so).
 //
 // Environment as a workload dimension: the only input of the parser besides argv is the millisecond clock
@@ -420,6 +421,7 @@ static void judge(vf::Ctx& c, const Args& args, const std::vector<ProbeSpec>& re
     RawArgv raw = raw_make(args);
     bool ok = false; size_t realRepeat = 1;
     bool cfgAgrees = true, helpBlamed = false;
+    int realKind = -1; bool realKindGiven = false;          // output kind the getters report / whether it is one of the given ones
     // ------------------------------------------------------------ stage 1: the parser alone, every getter
     {
         CommandLineArguments a(raw.ac, raw.av);
@@ -476,6 +478,16 @@ static void judge(vf::Ctx& c, const Args& args, const std::vector<ProbeSpec>& re
                 static const char* KN[] = { "normal", "junit", "teamcity" };
                 if (nset != 1) { cfgAgrees = false; c.violation("output-kind-getters-inconsistent", "exactly one of isEclipseOutput/isJUnitOutput/isTeamCityOutput must hold, " + std::to_string(nset) + " do"); }
                 else if (!in) { cfgAgrees = false; c.violation(std::string("output-kind-wrong:expected=") + (R.outputs.empty() ? "default-normal" : KN[R.outputs.back()]), std::string("getters say ") + KN[kind]); }
+                else {
+                    realKind = kind; realKindGiven = true;
+                    // several -o options naming different kinds: which occurrence decides is not documented (usage shows -o as
+                    // a non-repeatable option, the help text has no precedence rule), so it is recorded, not judged
+                    if (std::set<int>(R.outputs.begin(), R.outputs.end()).size() > 1) {
+                        c.count("output_kind_conflict_vectors");
+                        c.count(kind == R.outputs.back() ? "output_kind_conflict_last_given_wins" : kind == R.outputs.front() ? "output_kind_conflict_first_given_wins" : "output_kind_conflict_middle_given_wins");
+                        c.count(std::string("output_kind_conflict_parsed_") + KN[kind] + "_last_given_" + KN[R.outputs.back()]);
+                    }
+                }
             }
             // package
             {
@@ -533,7 +545,10 @@ static void judge(vf::Ctx& c, const Args& args, const std::vector<ProbeSpec>& re
             c.count(printedHelp ? "rejections_with_help" : "rejections_with_usage");
         } else if (refAccept) {
             bool anyList = R.lg || R.ln || R.ll;
-            int expKindSingle = R.outputs.empty() ? 0 : (std::set<int>(R.outputs.begin(), R.outputs.end()).size() == 1 ? R.outputs[0] : -1);
+            // the kind the runner has to apply: the only kind given (or the default); when several different kinds are given, the
+            // one the parser's getters settled on (judged above to be one of the given ones) - the runner applies the configuration
+            bool kindConflict = std::set<int>(R.outputs.begin(), R.outputs.end()).size() > 1;
+            int expKindSingle = R.outputs.empty() ? 0 : !kindConflict ? R.outputs[0] : (cfgAgrees && realKindGiven ? realKind : -1);
             if (printedUsage || printedHelp) c.violation("accepted-but-usage-printed", "parse() accepts the documented vector but the runner printed usage/help");
             // reference selection, C02 rule on the reference configuration
             std::vector<bool> sel(reg.size());
@@ -591,9 +606,10 @@ static void judge(vf::Ctx& c, const Args& args, const std::vector<ProbeSpec>& re
                 if (!reg.empty() && expKindSingle >= 0) {
                     int seen = !opened.empty() ? 1 : contains(console, "##teamcity[") ? 2 : 0;
                     static const char* KN[] = { "normal", "junit", "teamcity" };
-                    if (seen != expKindSingle) c.violation(std::string("apply:output-kind-wrong:expected=") + KN[expKindSingle], std::string("observed ") + KN[seen] + " (files opened: " + std::to_string(opened.size()) + ")");
+                    if (seen != expKindSingle) c.violation(std::string(kindConflict ? "apply:output-kind-differs-from-parsed:several-o-kinds:parsed=" : "apply:output-kind-wrong:expected=") + KN[expKindSingle], std::string("observed ") + KN[seen] + " (files opened: " + std::to_string(opened.size()) + ")");
                     if (!opened.empty() && contains(console, "##teamcity[")) c.violation("apply:output-kind-wrong:both", "files written and teamcity messages printed");
                     c.count(std::string("output_kind_applied_") + KN[expKindSingle]);
+                    if (kindConflict) { c.count("output_kind_applied_with_several_o_kinds"); c.count(std::string("output_kind_applied_with_several_o_kinds_") + KN[expKindSingle]); }
                     if (expKindSingle == 1) {
                         if ((int) opened.size() != obs.fcloses) c.count("junit_open_close_mismatch");
                         bool pkSingle = std::set<std::string>(R.packages.begin(), R.packages.end()).size() <= 1;
@@ -785,6 +801,33 @@ static void sec_form_pairs(vf::Ctx& c) {
     judge(c, a, fixed_registry(), CLS_MEANING);
 }
 
+// ---------------------------------------------------------------- finite: multiplicity of the scalar option -o
+// every sequence of 1..3 -o options x every kind word x attached/separated form of each, inside a few contexts
+// (other options in front, between and behind). The getters must report one of the given kinds, the runner must apply
+// exactly the kind the getters report (files / teamcity messages / console), verbosity and package are judged as usual.
+static std::vector<Args> g_oseq;
+static void init_oseq() {
+    const char* K[] = { "normal", "eclipse", "junit", "teamcity" };
+    for (int n = 1; n <= 3; n++) {
+        int combos = 1; for (int k = 0; k < n; k++) combos *= 4;
+        for (int cmb = 0; cmb < combos; cmb++) for (int forms = 0; forms < (1 << n); forms++) for (int ctx = 0; ctx < 6; ctx++) {
+            Args a;
+            if (ctx == 1) a.push_back("-v");
+            if (ctx == 2) a.push_back("-vv");
+            int cc = cmb;
+            for (int k = 0; k < n; k++) {
+                const char* w = K[cc % 4]; cc /= 4;
+                if (forms & (1 << k)) { a.push_back("-o"); a.push_back(w); } else a.push_back(std::string("-o") + w);
+                if (k == 0 && ctx == 3) { a.push_back("-g"); a.push_back("Net"); }
+            }
+            if (ctx == 2 || ctx == 4) a.push_back("-kpkg");
+            if (ctx == 5) a.push_back("-c");
+            g_oseq.push_back(a);
+        }
+    }
+}
+static void sec_oseq(vf::Ctx& c) { judge(c, g_oseq[(size_t) c.idx], fixed_registry(), CLS_MEANING); }
+
 // ---------------------------------------------------------------- finite: every truncation of every argument of every form
 static std::vector<Args> g_trunc;
 static void init_trunc() {
@@ -878,11 +921,12 @@ static void sec_hostile_mut(vf::Ctx& c) {
 }
 
 int main(int argc, char** argv) {
-    init_forms(); init_trunc(); init_clock();
+    init_forms(); init_trunc(); init_clock(); init_oseq();
     uint64_t nf = g_forms.size(), nc = (uint64_t) g_clockvecs.size() * 2 * g_lattice.size();
     std::vector<vf::Section> S = {
         { "option_form_pairs", nf * (nf + 1), nf * (nf + 1), sec_form_pairs, true },
         { "truncations_and_malformed", g_trunc.size(), g_trunc.size(), sec_trunc, true },
+        { "output_kind_option_sequences", g_oseq.size(), g_oseq.size(), sec_oseq, true },
         { "clock_lattice_x_clock_reading_vectors", nc, nc, sec_clock_lattice, true },
         { "meaning_random", 60000, 700000, sec_meaning, false },
         { "filters_random", 20000, 300000, sec_filters, false },
